@@ -365,7 +365,8 @@ class X86_64Arch(Architecture):
                         int_regs.pop(0)
                 else:
                     # We need stack location!
-                    arg_size = self.info.get_size(arg_type)
+                    # Floating point values are passed in 8 byte memory too
+                    arg_size = 8
                     reg = StackLocation(offset, arg_size)
                     offset += arg_size
             elif isinstance(arg_type, ir.BlobDataTyp):
@@ -448,6 +449,15 @@ class X86_64Arch(Architecture):
                         arg, RmMemDisp(rbp, stack_offset + 16)
                     )
                     stack_offset += arg_loc.size
+                elif isinstance(arg, registers.Register16):
+                    # Small integers live in the low part of the 8 bytes:
+                    yield bits16.MovRegRm(
+                        arg, RmMemDisp(rbp, stack_offset + 16)
+                    )
+                    stack_offset += arg_loc.size
+                elif isinstance(arg, registers.Register8):
+                    yield MovRegRm8(arg, RmMemDisp(rbp, stack_offset + 16))
+                    stack_offset += arg_loc.size
                 elif isinstance(arg, StackLocation):
                     # Store memcpy action for later:
                     # cps.append((arg.offset, stack_offset, arg.size))
@@ -521,6 +531,22 @@ class X86_64Arch(Architecture):
                     uses=(registers.eax,), defs=(registers.rax,)
                 )
                 yield Push(rax)
+            elif isinstance(push_reg, registers.Register16):
+                yield self.move(registers.ax, push_reg)
+                yield instructions.MovsxReg64Rm16(
+                    rax, RmReg16(registers.ax)
+                )
+                yield Push(rax)
+            elif isinstance(push_reg, registers.Register8):
+                yield self.move(al, push_reg)
+                yield MovsxReg64Rm8(rax, RmReg8(al))
+                yield Push(rax)
+            elif isinstance(push_reg, registers.XmmRegisterDouble):
+                yield PushXmmRegisterDouble(push_reg)
+            elif isinstance(push_reg, registers.XmmRegisterSingle):
+                # A float occupies the low half of an 8 byte slot:
+                yield SubImm(rsp, 4)
+                yield PushXmmRegisterSingle(push_reg)
             elif isinstance(push_reg, StackLocation):
                 # Invoke massive memcpy action!
                 # TODO: how about alignment?
